@@ -259,7 +259,7 @@ point, any change on a law with a cached helper sampler); distinct by hash of th
             }
         }
     }
-    ctx.exhaustive.push("bulk reproducibility: 13 distributions (default-class parameters) x 14 sizes from 1 to 100000 x {sample_n, sample_matrix with 8 columns}".into());
+    ctx.exhaustive.push("bulk reproducibility: 13 distributions (default-class parameters) x 19 sizes from 1 to 300000 x {sample_n, sample_matrix with 8 columns}".into());
     ctx.run_prop_par("bulk", ctx.scale(300, 6_000), 16, bulk_strat, check_bulk);
     // byte-decoded histories (all distributions mixed; exercises the fuzz decoder)
     ctx.run_prop_par("bytes", ctx.scale(4_000, 50_000), 8, || proptest::collection::vec(any::<u8>(), 0..160).prop_map(|bytes| BytesCase { bytes }), check_bytes);
@@ -286,10 +286,10 @@ pub struct BulkCase {
     pub seed: u64,
 }
 
-pub const BULK_SIZES: [usize; 14] = [1, 2, 17, 255, 256, 1000, 1024, 4096, 16383, 16384, 16385, 40000, 65536, 100000];
+pub const BULK_SIZES: [usize; 19] = [1, 2, 17, 255, 256, 1000, 1024, 4096, 16383, 16384, 16385, 40000, 65536, 100000, 131071, 131072, 131073, 262144, 300000];
 
 pub fn check_bulk(ctx: &mut Ctx, c: &BulkCase) -> R {
-    if c.dist as usize >= N_DIST || c.n == 0 || c.n > 200_000 || (c.cols > 0 && c.n % c.cols != 0) {
+    if c.dist as usize >= N_DIST || c.n == 0 || c.n > 400_000 || (c.cols > 0 && c.n % c.cols != 0) {
         return Ok(());
     }
     let name = DIST_NAMES[c.dist as usize];
